@@ -608,6 +608,8 @@ pub fn clutter_filter_map_with(r: &mut Rng, nseg: usize, zone_mode: u64, big_at:
                 }
             }
             if related {
+                // the count is a 16-bit field
+                zones.truncate(65535);
                 count = zones.len();
             }
             v.extend_from_slice(&be16(count as u16));
